@@ -191,6 +191,7 @@ var luaOps = map[string]string{
 	"tointeger": "math.tointeger(%s)", "ult": "math.ult(%s, %s)", "max": "math.max(%s, %s)", "min": "math.min(%s, %s)",
 	"modf": "math.modf(%s)", "mtype": "math.type(%s)", "tonumber": "tonumber(%s)", "tostring": "tostring(%s)",
 	"fdivint": "%s // 1", "concat0": "%s .. ''",
+	"keytype": "(function(k) local t = {} t[k] = true return math.type((next(t))) end)(%s)",
 }
 
 type env struct {
